@@ -91,7 +91,7 @@ register("C12", "props.c12", ["ValidaProofs.C12"], 1200, 30000,
          "one case = a path (45% of the serialisable shape: primitives and bare parts; 55% arbitrary parts, labels, modifiers) "
          "serialised, rebuilt and compared on three documents; distinct = (emitted/refused, length, concrete, has mapping spec); "
          "non-trivial = specs were emitted")
-register("C13", "props.c13", ["ValidaProofs.C13", "ValidaProofs.C13Schema", "ValidaProofs.C13Behave"], 600, 15000,
+register("C13", "props.c13", ["ValidaProofs.C13", "ValidaProofs.C13Schema", "ValidaProofs.C13Behave", "ValidaProofs.C13FloatText"], 600, 15000,
          "one case = a schema of 0-4 rules in the serialisable fragment (C11 conditions, C12 paths, optional str->int / str->bool cast) "
          "through to_json_like, JSON text, from_json_like, compared by equality and by validating three documents; distinct = "
          "(#rules, casts?, longest path); non-trivial = at least one rule")
